@@ -24,6 +24,7 @@ import py2lean_t
 import py2lean_s
 import py2lean_r
 import py2lean_v
+import py2lean_x
 
 GEN_FILES = ("PyOak/Gen/Kernels.lean", "PyOak/Props/GenBridge.lean")
 _state = {"target": None, "prev": None}
@@ -95,9 +96,37 @@ def _optional(repo: Path, lean: Path, file_name: str, gen, module: str, theorems
     return res
 
 
-def optional_obligation(repo: Path, lean: Path) -> dict:
+FINDALL_MODULE = "PyOak.Props.GenBridgeFindall"
+FINDALL_THEOREMS = ["PyOak.GenBridgeFindall." + t for t in [
+    "okOf_ofX", "gen_unfold", "key_ofX", "gIns_ofX", "gUnwrap_ofX", "gUnwrap_dummy", "inner_eq_gen",
+    # one round of the work list = findStep / findFirst; the whole function = findall (every tree, every element list)
+    "findStep_eq_gen", "findFirst_eq_gen", "rounds_eq_gen", "findall_eq_gen", "findall_nil_eq_gen"]]
+XPATH_ALL_MODULE = "PyOak.Props.GenBridgeXPathAll"
+
+
+def optional_xpath_match(repo: Path, lean: Path) -> dict:
     """C07: `_match_node_xpath`"""
     return _optional(repo, lean, "KernelsXPath.lean", py2lean_k.generate_xpath, XPATH_MODULE, XPATH_THEOREMS, "_match_node_xpath")
+
+
+def optional_findall(repo: Path, lean: Path) -> dict:
+    """C07: `ASTXpath.findall` (translated by py2lean_x.py)"""
+    return _optional(repo, lean, "KernelsFindall.lean", py2lean_x.generate_findall, FINDALL_MODULE, FINDALL_THEOREMS,
+                     "ASTXpath.findall")
+
+
+def optional_obligation(repo: Path, lean: Path) -> dict:
+    """C07 carries ONE optional obligation: both bridges (bottom-up matcher, top-down search) are regenerated and rebuilt;
+    it is re-proved when both are (the aggregate module lets one axiom audit see the theorems of both)"""
+    a = optional_xpath_match(repo, lean)
+    b = optional_findall(repo, lean)
+    res = {"module": XPATH_ALL_MODULE, "theorems": a["theorems"] + b["theorems"], "ok": a["ok"] and b["ok"],
+           "note": "\n".join(r["note"] for r in (a, b) if not r["ok"])}
+    if res["ok"]:
+        p = subprocess.run(["lake", "build", XPATH_ALL_MODULE], cwd=lean, capture_output=True, text=True)
+        if p.returncode != 0:
+            res["ok"], res["note"] = False, "the aggregate of the two bridges does not build:\n" + (p.stdout + p.stderr)[-800:]
+    return res
 
 
 EQ_MODULE = "PyOak.Props.GenBridgeEq"
